@@ -7,6 +7,7 @@ From SU.gen Require Import Consts.
 From SU.Model Require Import Midi.
 From SU.Spec Require Import MidiSpec.
 From SU.Proofs Require Import MidiProofs.
+From SU.Proofs Require Import MidiExtraProofs.
 Open Scope Z_scope.
 
 (** the held-note list of the receiver is the list of outstanding note-ons, for every
@@ -43,8 +44,60 @@ Example C04_example :
   /\ r_gate (mrun 3 h) = true.
 Proof. vm_compute. repeat split; reflexivity. Qed.
 
+(** the priority rule, characterised without reference to the model's selection function: the chosen note is held, it is the greatest / least held note or the most recently pressed one (the last element: push_held appends) *)
+Theorem C04_choose_next_note_spec : forall p held, held <> [] ->
+  let n := choose_next_note p held in
+  In n held /\
+  (p = PHigh -> Forall (fun x => x <= n) held) /\
+  (p = PLow -> Forall (fun x => n <= x) held) /\
+  (p = PLast -> n = last held 0 /\ exists older, held = older ++ [n]).
+Proof. exact choose_next_note_spec. Qed.
+
+(** that characterisation determines the note *)
+Theorem C04_selected_unique : forall p held n n',
+  selected p held n -> selected p held n' -> n = n'.
+Proof. exact selected_unique. Qed.
+
+(** hence, after every note message of a history within capacity that leaves a note outstanding, note_num() is the greatest / least / most recent outstanding note (held_spec is the model-independent list of outstanding notes) *)
+Theorem C04_note_after_note_msg : forall ch h o,
+  let c := Z.min ch 15 in
+  within_capacity c (h ++ [o]) ->
+  is_note_msg c o = true ->
+  held_spec c (h ++ [o]) <> [] ->
+  let n := r_note (mrun ch (h ++ [o])) in
+  let held := held_spec c (h ++ [o]) in
+  In n held /\
+  (prio_spec_rev (rev h) = PHigh -> Forall (fun x => x <= n) held) /\
+  (prio_spec_rev (rev h) = PLow -> Forall (fun x => n <= x) held) /\
+  (prio_spec_rev (rev h) = PLast -> exists older, held = older ++ [n]).
+Proof. exact C04_note_after_note_msg. Qed.
+
+(** and it stays that note until the next note message that leaves a note outstanding (so it is kept after everything is released) *)
+Theorem C04_note_selected : forall ch h1 o h2,
+  let c := Z.min ch 15 in
+  within_capacity c (h1 ++ o :: h2) ->
+  is_note_msg c o = true ->
+  held_spec c (h1 ++ [o]) <> [] ->
+  (forall h3 o' h4, h2 = h3 ++ o' :: h4 -> is_note_msg c o' = true ->
+                    held_spec c (h1 ++ o :: h3 ++ [o']) = []) ->
+  selected (prio_spec_rev (rev h1)) (held_spec c (h1 ++ [o])) (r_note (mrun ch (h1 ++ o :: h2))).
+Proof. exact C04_note_selected. Qed.
+
+(** the example history is within capacity *)
+Theorem C04_example_within_capacity :
+  within_capacity 3
+    [OMsg (MNoteOn 3 60 100); OMsg (MNoteOn 3 64 90); OMsg (MNoteOn 3 60 80);
+     OMsg (MNoteOff 3 61 0); OSetPrio PLow; OMsg (MNoteOn 3 64 0);
+     OMsg (MNoteOn 2 30 99)].
+Proof. exact C04_example_within_capacity. Qed.
+
 Print Assumptions C04_held.
 Print Assumptions C04_gate.
 Print Assumptions C04_note.
 Print Assumptions C04_velocity.
 Print Assumptions C04_capacity_is_32.
+Print Assumptions C04_choose_next_note_spec.
+Print Assumptions C04_selected_unique.
+Print Assumptions C04_note_after_note_msg.
+Print Assumptions C04_note_selected.
+Print Assumptions C04_example_within_capacity.
